@@ -530,7 +530,13 @@ func (w *World) doResume(a *Actor) {
 		if w.Cfg.Faults["partition"] {
 			wts[5] = 1
 		}
-		// bias: faults right after in-flight state was created
+		// swarm bias: one verb class per run is hit several times as often, so that coincidences
+		// of faults on the same kind of request (two failed status writes, ...) are reachable
+		if w.Cfg.HotVerb != "" && r.Verb == w.Cfg.HotVerb {
+			for i := 1; i < len(wts); i++ {
+				wts[i] *= 6
+			}
+		}
 		switch w.Sch.Weighted(wts, "fault@"+r.Verb) {
 		case 1:
 			kinds := simErrKinds
